@@ -14,7 +14,7 @@ def tla_value(v):
         return "{" + ", ".join(sorted(tla_value(x) for x in v)) + "}"
     raise ValueError(v)
 
-def write_cfg(path, spec, constants, invariants=(), constraints=(), postconditions=(), view=None, subst=None):
+def write_cfg(path, spec, constants, invariants=(), constraints=(), postconditions=(), view=None, subst=None, properties=()):
     """constants: name -> python value; subst: name -> operator name (written as  name <- op)."""
     lines = ["SPECIFICATION %s" % spec, "CONSTANTS"]
     for k, v in constants.items():
@@ -26,6 +26,8 @@ def write_cfg(path, spec, constants, invariants=(), constraints=(), postconditio
         lines.append("  %s <- %s" % (k, v))
     for i in invariants:
         lines.append("INVARIANT %s" % i)
+    for pr in properties:
+        lines.append("PROPERTY %s" % pr)
     for c in constraints:
         lines.append("CONSTRAINT %s" % c)
     for p in postconditions:
